@@ -13,6 +13,7 @@ fn run_case(case: &Value) -> Result<String, String> {
         "hll_union_two_orders" => Ok(format!("a:\n{}b:\n{}", crate::c03::replay(&case["a"]), crate::c03::replay(&case["b"]))),
         "cpc_union_ops" => Ok(crate::c06::replay(case)),
         "cpc_union_two_orders" => Ok(format!("a:\n{}b:\n{}", crate::c06::replay(&case["a"]), crate::c06::replay(&case["b"]))),
+        "bytes" => Ok(crate::c14::replay(case)),
         "hll_two_orders" => {
             let lg_k = case["lg_k"].clone();
             let start: Vec<Value> = case["start"].as_array().cloned().unwrap_or_default();
